@@ -113,13 +113,26 @@ def check_case(case, res):
         if (udp, tcp) != exp:
             res.violation("category-ports", case, f"category {case['cat']} -> UDP {udp} / TCP {tcp}, expected {exp}", list(exp) if exp else None, [udp, tcp])
     elif k == "api":
+        # observed, not read from a private attribute: which address does connect() ask the event loop for?
+        import socket
+
+        from mc.world import new_loop, task_outcome
+
         res.case(("api", case["cls"]))
         cls = getattr(api, case["cls"])
-        inst = cls("127.0.0.1", "aabbcc", "18")
-        res.outcome((case["cls"], inst._port))
-        exp = 9957 if case["cls"] == "SwitcherType1Api" else 10000
-        if inst._port != exp:
-            res.violation("api-port", case, f"{case['cls']} connects to port {inst._port}, expected {exp}", exp, inst._port)
+        inst = cls("192.168.9.9", "aabbcc", "18")
+        loop = new_loop()
+        try:
+            out = task_outcome(loop.run_task(inst.connect()))
+            asked = loop.connect_log[-1] if loop.connect_log else None
+            if out[0] == "ok":
+                loop.run_task(inst.disconnect())
+        finally:
+            loop.finish()
+        res.outcome((case["cls"], asked))
+        exp = ("192.168.9.9", 9957 if case["cls"] == "SwitcherType1Api" else 10000, socket.AF_INET)
+        if asked != exp:
+            res.violation("api-port", case, f"{case['cls']} connects to {asked}, expected {exp}", list(exp), asked)
     elif k == "totals":
         res.case(("totals",))
         names = sorted(t.name for t in d.DeviceType)
